@@ -2,7 +2,7 @@
    rd = the direct reading of the source expression (interpretation S1, DESIGN.md section 7); T toks t = the token-level
    expression the builder made denotes the tree t; denotes t fe = same Boolean value under every assignment, same keys. *)
 From Ahb Require Import Model.Prelude Model.Grammar Gen.Gen_logic Gen.Gen_grammar Model.Logic Model.Lex Model.EvalRC Model.EvalFC Model.Spec
-  Proofs.C04_eval Proofs.C08_fc Proofs.C07_fc Proofs.C07_parse Proofs.C01_lexprint Proofs.C07_text.
+  Proofs.C04_eval Proofs.C08_fc Proofs.C07_fc Proofs.C07_parse Proofs.C01_lexprint Proofs.C01_print Proofs.C07_text.
 
 Theorem C07_meaning : forall a rho e n, dom e = true -> valid e = true -> env_ok a rho e -> eval_rc rho e = Ok n ->
   match rd a e with
@@ -43,3 +43,16 @@ Theorem C07_text : forall a rho e n, dom e = true -> valid e = true -> env_ok a 
   end.
 Proof. exact reported_text_parses. Qed.
 Print Assumptions C07_text.
+
+(* ... and for every expression the parser produced the key hypothesis is met: e is (the key-only form of) any parse the resolution admits
+   for a written expression l *)
+Theorem C07_text_of_parsed : forall a rho e n l its,
+  Forall (fun p : text * ptok => all_ws (fst p) = true /\ ptok_ok (snd p) = true) l ->
+  group (map (fun p => tok_of (snd p)) l) = Some its -> Rc its (embed e) ->
+  dom e = true -> valid e = true -> env_ok a rho e -> eval_rc rho e = Ok n ->
+  match rd a e with
+  | None => r_fcx (rc_result n) = None
+  | Some fe => exists toks t, r_fcx (rc_result n) = Some toks /\ denotes t fe /\ parse_cond (EvalRC.render toks) = Ok (flat (embed t))
+  end.
+Proof. exact reported_text_parses_for_parsed. Qed.
+Print Assumptions C07_text_of_parsed.
